@@ -165,6 +165,9 @@ def run_case(case):
     windows["off-grid window"] = t[0] + rng.uniform(-1, 1) * N * dts + np.arange(int(rng.integers(2, N))) * dts * float(rng.uniform(0.3, 1.7))
     windows["same start and sample count, coarser spacing"] = t[0] + np.arange(N) * dts * float(rng.choice([2, 3]))
     windows["same start and sample count, finer spacing"] = t[0] + np.arange(N) * dts * 0.5
+    # far from the start of the stored period, between the samples: position in steps ~ 1e3 ... 3e5, fraction of a step 0.001 ... 0.9
+    windows["late window displaced by a fraction of a step"] = (t[0] + (int(10 ** rng.uniform(3, 5.5)) * int(rng.choice([-1, 1])) + float(10 ** rng.uniform(-3, -0.05))
+                                                                     + np.arange(int(rng.integers(2, N + 2)))) * dts)
     windows["irregular times"] = np.sort(t[0] + rng.uniform(-0.5, 1.5, size=int(rng.integers(3, N + 3))) * N * dts)
     windows["grid re-bound on the used object (same length, a few samples later)"] = t + int(rng.integers(1, 8)) * dts
     for name, tq in windows.items():
